@@ -39,6 +39,9 @@ import (
 	_ "verifsim/shapes/person"
 	_ "verifsim/shapes/rep3"
 	_ "verifsim/shapes/wide"
+	_ "verifsim/shapes/flatp"
+	_ "verifsim/shapes/kvp"
+	_ "verifsim/shapes/nestedp"
 )
 
 func main() {
@@ -707,7 +710,7 @@ func firstLines(s string, n int) string {
 // cmdSolo is the child of the C13 fresh-process arm: it executes one order of
 // instances in this fresh process and prints their output digests.
 func cmdSolo() int {
-	runtime.GOMAXPROCS(1)
+	// GOMAXPROCS, GOGC and TZ come from the environment the parent chose for this process lifetime
 	var c core.Case
 	dec := json.NewDecoder(os.Stdin)
 	if err := dec.Decode(&c); err != nil {
